@@ -5,6 +5,7 @@
  *   SI_QQ=1      qmail-queue semantics: "<pid>.commit" is created iff the envelope on fd 1 is well formed
  *                (F<addr>\0 (T<addr>\0)* \0 seen before EOF) and the scripted exit status is 0; a missing terminator => exit 54
  *   SI_FD6_HEX   bytes written to descriptor 6;  SI_OUT_HEX  bytes written to descriptor 1 (after reading)
+ *   SI_OUT_SEQ_HEX  comma list of such outputs, one per run of the stand-in (counter in <SI_DIR>/oseq, last entry repeats)
  *   SI_EXIT      exit status (default 0);  SI_KILL  signal number to die from
  *   SI_EXEC=1    finally exec argv[1..] (checkpassword success)
  *   SI_PASS=path when the scripted exit status of this run is 0, exec `path` at once, before anything is read (a filter that lets the run through)
@@ -115,7 +116,17 @@ int main(int argc, char **argv)
     put(dir, pid, "meta", meta, strlen(meta));
   }
   if ((s = getenv("SI_FD6_HEX"))) { char *b = malloc(strlen(s) + 2); size_t n = unhex(s, b); if (write(6, b, n) < 0) {} }
-  if ((s = getenv("SI_OUT_HEX"))) { char *b = malloc(strlen(s) + 2); size_t n = unhex(s, b); if (write(1, b, n) < 0) {} }
+  if ((s = getenv("SI_OUT_SEQ_HEX"))) {
+    /* comma list of outputs (hex) consumed one per run (counter in <SI_DIR>/oseq; the last entry repeats): runs of one spawner differ */
+    char p[1024]; FILE *f; int k = 0, j = 0; const char *q = s; char *b; size_t n, l;
+    snprintf(p, sizeof p, "%s/oseq", dir);
+    f = fopen(p, "r"); if (f) { if (fscanf(f, "%d", &k) != 1) k = 0; fclose(f); }
+    f = fopen(p, "w"); if (f) { fprintf(f, "%d", k + 1); fclose(f); }
+    while (j < k && strchr(q, ',')) { q = strchr(q, ',') + 1; ++j; }
+    l = strcspn(q, ","); b = malloc(l + 2); memcpy(b, q, l); b[l] = 0;
+    { char *o = malloc(l + 2); n = unhex(b, o); if (write(1, o, n) < 0) {} }
+  }
+  else if ((s = getenv("SI_OUT_HEX"))) { char *b = malloc(strlen(s) + 2); size_t n = unhex(s, b); if (write(1, b, n) < 0) {} }
   if ((s = getenv("SI_LINGER_MS"))) {
     /* the program gives up all its descriptors and only dies a little later: its parent sees end-of-file on every pipe long before the
        exit status exists (a real program may do this, e.g. by closing stdout before a slow cleanup or a crash in an exit handler) */
